@@ -133,17 +133,29 @@ for cfg in CONFIGS:
 
 
 # ---- proxy layer: after a failure the connection is discarded and the next use reconnects and returns correct data ---------------------------
+def _proxy_stream_length():
+    sim.RANDOM.n = 1000
+    made = cli.prepare([dict()], tags=TAGS)
+    via = get_attribute.proxy('fake', timeout=1, depth=1, identity_default='sim')
+    with via:
+        list(via.read(['A[0-3]', ('@2/1/1', 'INT')]))
+    return len(made[0][0].out)
+
+
+PROXY_TOTAL = _proxy_stream_length()
+
+
 def do_proxy(cut, depth):
     sim.RANDOM.n = 1000
     sim.attribute('A').value[:] = [1, 2, 3, 4, 5, 6]
-    total = BASE[(1, 0)][2]
-    cut = cut % total                                           # a real fault: strictly inside the stream
+    cut = cut % PROXY_TOTAL                                     # a real fault: strictly inside the reply stream of this exchange
     cli.prepare([dict(cut=cut), dict()], tags=TAGS)
     via = get_attribute.proxy('fake', timeout=1, depth=depth, identity_default='sim')
     first = None
     failed = False
     try:
-        first = list(via.read(['A[0-3]', ('@2/1/1', 'INT')]))
+        with via:                                               # as poll.run uses it: __exit__ discards the gateway on any exception
+            first = list(via.read(['A[0-3]', ('@2/1/1', 'INT')]))
     except Exception:
         failed = True
     ok = True
@@ -151,7 +163,8 @@ def do_proxy(cut, depth):
         ok = via.gateway is None                                # discarded
     else:
         ok = [list(v) for v in first] == [[1, 2, 3, 4], [1, 2, 3, 4, 5, 6]]  # only possible when both replies were wholly inside the cut
-    second = list(via.read(['A[0-3]', ('@2/1/1', 'INT')]))
+    with via:
+        second = list(via.read(['A[0-3]', ('@2/1/1', 'INT')]))
     return ok and [list(v) for v in second] == [[1, 2, 3, 4], [1, 2, 3, 4, 5, 6]] and via.gateway is not None
 
 
